@@ -8,6 +8,7 @@
 import Rl2tp.Proofs.HideSpec
 import Rl2tp.Proofs.Image
 import Rl2tp.Spec.Md5
+import Rl2tp.Proofs.InPlace
 namespace Rl2tp.C12
 open Spec.Hide
 
@@ -70,5 +71,12 @@ def toyHash (x : Bytes) : Bytes := (List.range 16).map fun i => UInt8.ofNat (x.l
 example : ∀ x, (toyHash x).length = 16 := fun x => by simp [toyHash]
 example : hide toyHash (.hostName [1, 2, 3]) [9] 7 (List.replicate 12 0xEE) (List.replicate 16 0xAA)
     = .ok (.hidden 7 (hiddenValue toyHash 7 [9] 7 [1, 2, 3] (List.replicate 12 0xEE) (List.replicate 16 0xAA))) := by decide
+
+/-- `hide` as the code runs it — the first chunk XORed in place, then `for i in 1..n { input[i] ^= MD5(secret ‖ input[i-1]) }`
+    on the same buffer, every slice / index expression a possible panic (`hideIP`, Model/InPlace.lean; what the
+    correspondence check runs) — is `hide`: no index out of range, the same hidden value, hence the RFC construction -/
+theorem hide_inplace_eq (hmd5 : ∀ x, (md5 x).length = 16) (a : AVP) (secret : Bytes) (rv : UInt32) (lp ap : Bytes)
+    (hap : ap.length = 16) : hideIP md5 a secret rv lp ap = hide md5 a secret rv lp ap :=
+  hideIP_eq md5 hmd5 a secret rv lp ap hap
 
 end Rl2tp.C12
